@@ -7,6 +7,7 @@
 #include "cmd_sim.h"
 #include "cmd_mem.h"
 #include "cmd_fileio.h"
+#include "cmd_safe.h"
 
 static void register_all()
 {
@@ -17,4 +18,5 @@ static void register_all()
   register_sim();
   register_mem();
   register_fileio();
+  register_safe();
 }
